@@ -83,6 +83,34 @@ static void item_long (long it, void *arg)
 	vf_stat_add (st_trans, n);
 }
 
+/* near-exact divisions: T = N*A + r with r in {0,1,2,N-2,N-1} for every N in 1..NMAX (item = N) and every A of a list
+ * that has the mid-range values (200, 500, 1500, 3000, 20000 ...) next to the round ones; evaluated with B = A and
+ * B = A+1 (so that ceil(T/B) is N or just below) for E = 1 and E = 1316 (L = T*E - 3): the places where a ceiling, a
+ * floor or a tolerance can go wrong are exactly the neighbours of exact multiples */
+static long N_NEAR;
+static void item_near (long it, void *arg)
+{
+	static const uint64_t AL[] = {1, 2, 3, 4, 7, 8, 9, 16, 17, 31, 33, 63, 64, 100, 127, 129, 200, 255, 256, 257, 300, 499, 500, 501, 999, 1000, 1001, 1023, 1025, 1316, 1472, 1499, 1500, 2000, 3000, 4096, 5000, 9999, 10000, 10001, 16384, 19999, 20000, 20001, 32768, 50000, 65535, 65536, 65537, 100000};
+	uint64_t N = (uint64_t) it + 1;
+	long n = 0;
+	int a, q;
+	(void) arg;
+	vf_slot_set_prop ("C20");
+	snprintf (vf_slot (), VF_SLOT_LEN, "near N=%llu", (unsigned long long) N);
+	for (a = 0; a < (int) (sizeof AL / sizeof AL[0]); a++)
+		for (q = 0; q < 5; q++) {
+			uint64_t r = q < 3 ? (uint64_t) q : N - (uint64_t) (5 - q), T;
+			if (r >= N && !(N == 1 && r == 0)) continue;
+			T = N * AL[a] + r;
+			if (T == 0 || T > 0xFFFFFFFFULL) continue;
+			check_one (T, 1, AL[a]); check_one (T, 1, AL[a] + 1); n += 2;
+			if (AL[a] > 1) { check_one (T, 1, AL[a] - 1); n++; }
+			if (T * 1316 <= 0xFFFFFFFFULL && T * 1316 > 3) { check_one (T * 1316 - 3, 1316, AL[a]); check_one (T * 1316 - 3, 1316, AL[a] + 1); n += 2; }
+		}
+	vf_heartbeat ();
+	vf_stat_add (st_trans, n);
+}
+
 static void item_replay (long it, void *arg)
 {
 	unsigned long long L = 0, E = 0, B = 0;
@@ -116,6 +144,9 @@ int main (int argc, char **argv)
 	T_LONG = thorough ? (1L << 22) : (1L << 19);
 	vf_pool_run ((T_LONG + 4095) / 4096, item_long, NULL, 0);
 	vf_outcome ("long_T_range", T_LONG);
+	N_NEAR = thorough ? 20000 : 4096;
+	vf_pool_run (N_NEAR, item_near, NULL, 0);
+	vf_outcome ("near_exact_division_N", N_NEAR);
 	{
 		of_blocking_struct_t bs;
 		blk_ref r;
